@@ -25,11 +25,23 @@ struct Stats {
 fn explore(cfg: &Config, rep: &Reporter, budget_s: f64) -> Stats {
   let alpha = alphabet(cfg);
   let mut seen: HashSet<String> = HashSet::new();
-  let init = execute(cfg, &[]);
-  seen.insert(init.key.clone());
-  let mut frontier: Vec<(Vec<Op>, Model, usize)> = vec![(vec![], init.model, init.nseg)];
+  // roots: the empty index, and an index with two segments whose writer handle is still alive
+  // (so that compaction, upserts and deletes through a long-lived handle are within the depth)
+  let a = |id: &str, v: &str| Op::Add(0, id.into(), v.into());
+  let roots: Vec<Vec<Op>> = vec![vec![], vec![Op::New(0), a("A", "1"), Op::Commit(0), a("B", "1"), Op::Commit(0)]];
+  let mut frontier: Vec<(Vec<Op>, Model, usize)> = Vec::new();
+  for r in roots {
+    let o = execute(cfg, &r);
+    if let Some(f) = o.failure {
+      rep.fail(None, &format!("[{}] {} :: {}", cfg.name(), hist_str(&r), f.1), json!({"engine": "histmc", "config": cfg.to_json(), "history": r}));
+      continue;
+    }
+    if seen.insert(o.key.clone()) {
+      frontier.push((r, o.model, o.nseg));
+    }
+  }
   let mut stats = Stats {
-    states: 1,
+    states: frontier.len() as u64,
     transitions: 0,
     depth_done: 0,
     fixpoint: false,
@@ -101,10 +113,10 @@ fn explore(cfg: &Config, rep: &Reporter, budget_s: f64) -> Stats {
 pub fn configs(tier: Tier) -> Vec<Config> {
   let mut v = Vec::new();
   if tier.is_quick() {
-    v.push(Config { mem: false, positions: true, handles: 2, compactable: true, max_depth: 6, max_segments: 3, max_queue: 2 });
-    v.push(Config { mem: true, positions: true, handles: 2, compactable: true, max_depth: 7, max_segments: 3, max_queue: 2 });
-    v.push(Config { mem: true, positions: false, handles: 1, compactable: false, max_depth: 7, max_segments: 3, max_queue: 2 });
-    v.push(Config { mem: true, positions: true, handles: 3, compactable: true, max_depth: 4, max_segments: 3, max_queue: 2 });
+    v.push(Config { mem: false, positions: true, handles: 2, compactable: true, max_depth: 5, max_segments: 3, max_queue: 2 });
+    v.push(Config { mem: true, positions: true, handles: 2, compactable: true, max_depth: 5, max_segments: 3, max_queue: 2 });
+    v.push(Config { mem: true, positions: false, handles: 1, compactable: false, max_depth: 6, max_segments: 3, max_queue: 2 });
+    v.push(Config { mem: true, positions: true, handles: 3, compactable: true, max_depth: 3, max_segments: 3, max_queue: 2 });
   } else {
     for mem in [false, true] {
       for positions in [true, false] {
@@ -145,7 +157,7 @@ pub fn run(ctx: &Ctx) -> i32 {
     }
   }
   let cfgs = configs(ctx.tier);
-  let budget = if ctx.tier.is_quick() { 40.0 } else { 1500.0 };
+  let budget = if ctx.tier.is_quick() { 35.0 } else { 1500.0 };
   let mut states = 0;
   let mut transitions = 0;
   let mut per_cfg = Vec::new();
@@ -173,6 +185,7 @@ pub fn run(ctx: &Ctx) -> i32 {
     "transitions" => transitions,
     "traces_validated_against_impl" => transitions,
     "distinct_nontrivial" => states,
+    "roots" => "empty index; [new0 add(A1) commit add(B1) commit] (two segments, live handle)",
     "rule" => "BFS over all histories of {new,drop,add(A|B,v1|v2),del(A|B),commit,rollback} per handle + compact + reopen; a state is distinct by canonical key (segment structure, WAL records, per-handle queues and cache snapshots, committed map); every transition re-executes the real code from a fresh index and checks fresh-reader contents against the per-handle-queue reference model after every step",
     "exhaustive" => all_fix,
     "exhaustive_note" => "exhaustive within the per-config caps (depth, segments, queue length); fixpoint_reached per config says whether the frontier emptied below the depth cap",
